@@ -4,7 +4,8 @@ Ownership ledger of the code the Rust backend emits (C06).
 
 A value crossing the boundary is abstracted to its **buffer tree**: one node per value position,
 remembering which kind of buffer instruction handles it (string / canonical list / element-wise
-list / map / fixed-length list / anything else), whether a heap block exists for it (`buf`: the
+list — `elemsZ` when the Rust element type is zero-sized, so that `Vec` never allocates — / map /
+fixed-length list / anything else), whether a heap block exists for it (`buf`: the
 string or list is non-empty) and — for values built by user code — whether the Rust collection has
 spare capacity (`spare`: `into_boxed_slice` then reallocates).
 
@@ -31,7 +32,7 @@ namespace Witverif.Abi.RustLedger
 open Witverif.Abi
 
 inductive Kind where
-  | str | canon | elems | map | flist | area | plain
+  | str | canon | elems | elemsZ | map | flist | area | plain
 deriving DecidableEq, Repr
 
 /-- buffer tree -/
@@ -83,7 +84,7 @@ end
 
 /-! ### the ownership profile (one table per phase) -/
 
-def isBufKind (k : Kind) : Bool := k == .str || k == .canon || k == .elems || k == .map
+def isBufKind (k : Kind) : Bool := k == .str || k == .canon || k == .elems || k == .elemsZ || k == .map
 
 /-- the host allocates every non-empty buffer of a value it lowers (`Spec.store/lowerFlat`) -/
 def hostAlloc : Table := fun n =>
@@ -95,7 +96,8 @@ def hostAlloc : Table := fun n =>
 buffer (`cabi_dealloc`) after the element loop; the parameter record is freed after the last read -/
 def lift : Table := fun n =>
   if n.k == .area then { post := [(false, .area)] }
-  else if (n.k == .elems || n.k == .map) && n.buf then { pre := [(true, .vec)], post := [(false, .host)] } else {}
+  else if (n.k == .elems || n.k == .map) && n.buf then { pre := [(true, .vec)], post := [(false, .host)] }
+  else if n.k == .elemsZ && n.buf then { post := [(false, .host)] } else {}
 
 /-- dropping a value that was produced by `lift` -/
 def dropLifted : Table := fun n =>
@@ -104,7 +106,7 @@ def dropLifted : Table := fun n =>
 
 /-- user code builds a value -/
 def build : Table := fun n =>
-  if isBufKind n.k && n.buf then { pre := [(true, .user)] } else {}
+  if isBufKind n.k && n.k != .elemsZ && n.buf then { pre := [(true, .user)] } else {}
 
 /-- generated lowering code with `realloc` (results of exports): `into_boxed_slice` + `forget` for
 strings and canonical lists (reallocating when there is spare capacity); a fresh buffer for
@@ -112,12 +114,13 @@ element-wise lists and maps, the collection's own storage being released after t
 def lowerOwned : Table := fun n =>
   if (n.k == .str || n.k == .canon) && n.buf then
     (if n.spare then { pre := [(false, .user), (true, .shrunk)] } else {})
-  else if (n.k == .elems || n.k == .map) && n.buf then { pre := [(true, .out)], post := [(false, .user)] } else {}
+  else if (n.k == .elems || n.k == .map) && n.buf then { pre := [(true, .out)], post := [(false, .user)] }
+  else if n.k == .elemsZ && n.buf then { pre := [(true, .out)] } else {}
 
 /-- the block that represents the node in the lowered image -/
 def imageTag (n : Info) : Option Tag :=
   if (n.k == .str || n.k == .canon) && n.buf then some (if n.spare then .shrunk else .user)
-  else if (n.k == .elems || n.k == .map) && n.buf then some .out else none
+  else if (n.k == .elems || n.k == .elemsZ || n.k == .map) && n.buf then some .out else none
 
 /-- generated `cabi_post_*` = abi.rs `deallocate_indirect`: frees the image block of every buffer
 node **except below a fixed-length list, where it emits nothing** -/
@@ -136,15 +139,15 @@ def postReturnSpec : Table := fun n =>
 /-- generated lowering code without `realloc` (arguments of imports): strings and canonical lists
 are borrowed; element-wise lists and maps get a temporary buffer guarded by `Cleanup` -/
 def lowerBorrow : Table := fun n =>
-  if (n.k == .elems || n.k == .map) && n.buf then { pre := [(true, .out)] } else {}
+  if (n.k == .elems || n.k == .elemsZ || n.k == .map) && n.buf then { pre := [(true, .out)] } else {}
 
 /-- the `Cleanup` guards run when the wrapper returns -/
 def cleanup : Table := fun n =>
-  if (n.k == .elems || n.k == .map) && n.buf then { post := [(false, .out)] } else {}
+  if (n.k == .elems || n.k == .elemsZ || n.k == .map) && n.buf then { post := [(false, .out)] } else {}
 
 /-- dropping a value that was produced by `build` -/
 def dropBuilt : Table := fun n =>
-  if isBufKind n.k && n.buf then { post := [(false, .user)] } else {}
+  if isBufKind n.k && n.k != .elemsZ && n.buf then { post := [(false, .user)] } else {}
 
 /-! ### calls -/
 
@@ -182,12 +185,26 @@ def Balanced (tr : List Ev) : Prop := ∀ i, blockOk (proj i tr) = true
 def spareOf (len : Nat) : Bool := len % 3 != 0
 
 mutual
+/-- the Rust type generated for `t` is zero-sized (`enum V { C0 }`, tuples / records / arrays of
+such): a `Vec` of it never allocates -/
+def rustZst : Ty → Bool
+  | .variant [none] => true
+  | .variant [some t] => rustZst t
+  | .record fs | .tuple fs => rustZstAll fs
+  | .flist e n => n == 0 || rustZst e
+  | _ => false
+def rustZstAll : List Ty → Bool
+  | [] => true
+  | t :: ts => rustZst t && rustZstAll ts
+end
+
+mutual
 /-- buffer tree of `v : t` under the Rust canonical-list rule -/
 def shape : Ty → Val → Tree
   | .string, .str bs => .node .str (bs.length != 0) (spareOf bs.length) []
   | .list e, .list vs =>
       if RustProfile.rustCanon e then .node .canon (vs.length != 0) (spareOf vs.length) []
-      else .node .elems (vs.length != 0) (spareOf vs.length) (shapeAll e vs)
+      else .node (if rustZst e then .elemsZ else .elems) (vs.length != 0) (spareOf vs.length) (shapeAll e vs)
   | .map k v, .list vs => .node .map (vs.length != 0) false (shapeEntries k v vs)
   | .flist e _, .list vs => .node .flist false false (shapeAll e vs)
   | .record fs, .record vs => .node .plain false false (shapeFields fs vs)
